@@ -22,6 +22,9 @@ import ShapeVerif.Proofs.CasteljauGen
 import ShapeVerif.Proofs.DerivGen
 import ShapeVerif.Gen.Arith
 
+set_option linter.unusedTactic false
+set_option linter.unreachableTactic false
+
 namespace ShapeVerif.C18
 open ShapeVerif
 
@@ -77,13 +80,30 @@ theorem split_junction_all (s : Seg) (hs : s ≠ []) (t0 : Rat) :
 /-! ### the kernels as written in the source -/
 
 /-- `Math.comb` as written in curve.py is the model's `comb` wherever it is called (i ≤ n) … -/
+theorem foldl_div_one (l : List Nat) (v : Nat) : (1 :: l).foldl (fun a j => a / j) v = l.foldl (fun a j => a / j) v := by
+  simp
+
 theorem source_comb_is_model (n i : Nat) (h : i ≤ n) : Gen.comb n i = comb n i := by
-  simp only [Gen.comb, comb, List.range'_eq_map_range, List.foldl_map]
-  have h1 : n + 1 - (n - i + 1) = i := by omega
-  have h2 : i + 1 - 2 = i - 1 := by omega
-  rw [h1, h2]
-  congr 1
-  · funext v k; rw [Nat.add_comm 2 k]
+  -- (two scripts: the division loop written `range(2, i + 1)` as in the source today, or `range(1, i + 1)` - dividing by 1 first changes nothing)
+  first
+  | (simp only [Gen.comb, comb, List.range'_eq_map_range, List.foldl_map]
+     have h1 : n + 1 - (n - i + 1) = i := by omega
+     have h2 : i + 1 - 2 = i - 1 := by omega
+     rw [h1, h2]
+     congr 1
+     · funext v k; rw [Nat.add_comm 2 k])
+  | (simp only [Gen.comb, comb]
+     have h1 : n + 1 - (n - i + 1) = i := by omega
+     rw [h1]
+     cases i with
+     | zero => simp
+     | succ m =>
+       have e : List.range' 1 (m + 1 + 1 - 1) = 1 :: List.range' 2 m := by
+         rw [show m + 1 + 1 - 1 = m + 1 by omega, List.range'_succ]
+       rw [e, foldl_div_one]
+       simp only [List.range'_eq_map_range, List.foldl_map, Nat.add_sub_cancel]
+       congr 1
+       · funext v k; rw [Nat.add_comm 2 k])
 
 /-- … hence the binomial coefficient -/
 theorem source_comb_is_binomial (n i : Nat) (h : i ≤ n) : Gen.comb n i = Nat.choose n i := by
